@@ -59,6 +59,7 @@ fn next_perm(p: &mut [usize]) -> bool {
 }
 
 struct Scenario {
+    is3d: bool,
     cell: ConvexCell<WithoutFaces>,
     hs: HalfSpace,
     gens: Vec<vh::Generator>,
@@ -98,7 +99,7 @@ fn shell_scenario(inp: &Input, m: usize) -> Option<Scenario> {
     let cell = vh::cell_build_with(loc, 0, &gens, cands[..=m].to_vec(), &boundary);
     let (j, shift) = cands[m + 1];
     let hs = vh::bisector(loc, gens[j].loc(), j, shift);
-    Some(Scenario { cell, hs, gens, boundary, boxvol: 1. })
+    Some(Scenario { is3d: true, cell, hs, gens, boundary, boxvol: 1. })
 }
 
 /// a generator surrounded by a ring of `k` neighbours in its own horizontal plane (its cell becomes a k-sided prism between the
@@ -135,7 +136,7 @@ fn ring_cap_scenario(inp: &Input) -> Option<Scenario> {
     let cell = vh::cell_build_with(loc, 0, &gens, cands[..=k].to_vec(), &boundary);
     let (j, shift) = cands[k + 1];
     let hs = vh::bisector(loc, gens[j].loc(), j, shift);
-    Some(Scenario { cell, hs, gens, boundary, boxvol: 1. })
+    Some(Scenario { is3d: true, cell, hs, gens, boundary, boxvol: 1. })
 }
 
 fn scenario(inp: &Input, rng: &mut Rng) -> Option<Scenario> {
@@ -187,7 +188,7 @@ fn scenario(inp: &Input, rng: &mut Rng) -> Option<Scenario> {
         }
     }
     let hs = hs?;
-    Some(Scenario { cell, hs, gens, boundary, boxvol: width.x * width.y * width.z })
+    Some(Scenario { is3d: inp.dim == 3, cell, hs, gens, boundary, boxvol: width.x * width.y * width.z })
 }
 
 fn emit_scenario(out: &mut Out, fam: &str, sid: usize, sc: &Scenario, rng: &mut Rng, max_exhaustive: usize, sampled: usize) {
@@ -260,6 +261,14 @@ fn emit_scenario(out: &mut Out, fam: &str, sid: usize, sc: &Scenario, rng: &mut 
             verts.push(v);
         }
         cell.vertices = verts;
+        // every other permutation of a 3D cell goes through with_faces().discard_faces() first: the cell that comes back must
+        // clip exactly like the one that went in
+        if k % 2 == 1 && sc.is3d {
+            let c2 = cell.clone();
+            if let Ok(rt) = guarded(std::panic::AssertUnwindSafe(move || c2.with_faces().discard_faces())) {
+                cell = rt;
+            }
+        }
         input.push_str(&format!(" BV {}", fx(sc.boxvol)));
         let hs = sc.hs.clone();
         let res = guarded(std::panic::AssertUnwindSafe(|| {
